@@ -185,7 +185,7 @@ Proof. split; [reflexivity|]. unfold scheme_V4. cbn. repeat split; auto 10. Qed.
 (* ---------------------------------------------------------------- which leaves are encrypted *)
 From QV Require Import Crypto.EncWriter.
 
-(* leaves_encrypted (partial): for every class of leaf except strings in the dictionary of the cleartext
+(* leaves_encrypted (partial): for every class of enc_leaf except strings in the dictionary of the cleartext
    metadata stream, the writer encrypts exactly what the standard requires to be encrypted *)
 Lemma leaves_encrypted_partial_lemma : forall encrypt_metadata l,
   l <> LfMetaDictString \/ encrypt_metadata = true ->
@@ -201,5 +201,5 @@ Qed.
    (known finding C05-F3; the check observes it on generated files) *)
 Lemma leaves_encrypted_refuted_lemma :
   writer_encrypts false LfMetaDictString = false /\ iso_requires_encrypted false LfMetaDictString = true /\
-  forallb (fun l => Bool.eqb (writer_encrypts true l) (iso_requires_encrypted true l)) all_leaves = true.
+  forallb (fun l => Bool.eqb (writer_encrypts true l) (iso_requires_encrypted true l)) enc_all_leaves = true.
 Proof. repeat split. Qed.
